@@ -60,10 +60,11 @@ enum Op
     OP_STOP,
     OP_TRIG,
     OP_GET,
+    OP_GETSMALL, /* camera_get_frame with a buffer that is too small: the camera refuses, the HAL stops it (C17 threads part only) */
     OP_CLOSE, /* the driver's close on a camera in whatever state (C17: it stops the streamer itself); last op of script A, no script B */
     OP_COUNT
 };
-static const char* const op_names[OP_COUNT] = { "on", "off", "start", "stop", "trig", "get", "close" };
+static const char* const op_names[OP_COUNT] = { "on", "off", "start", "stop", "trig", "get", "getsmall", "close" };
 
 
 static int g_closed; /* the camera object is gone */
@@ -334,6 +335,20 @@ do_op(int who, int op)
                 ++H.trig_begun;
             enum DeviceStatusCode e = camera_execute_trigger(H.cam);
             printf("r %c trig %s\n", r, e == Device_Ok ? "ok" : "err");
+        } break;
+        case OP_GETSMALL: {
+            uint8_t buf[8];
+            size_t nbytes = sizeof buf;
+            struct ImageInfo info;
+            memset(&info, 0, sizeof info);
+            enum DeviceStatusCode e = camera_get_frame(H.cam, buf, &nbytes, &info);
+            printf("r %c getsmall %s\n", r, e == Device_Ok ? "ok" : "err");
+            /* a camera the HAL reports as not running has no streamer thread left (the HAL stops a camera whose frame call failed) */
+            if (camera_get_state(H.cam) != DeviceState_Running && !H.inflight[1 - who]) {
+                int first = H.has_b ? 2 : 1, live = 0;
+                for (int t = first; t < detsched_thread_count(); ++t) { int o = 0, en = 0; if (detsched_thread_pending(t, &o, &en) >= 0) ++live; }
+                if (live) oracle_fail("streamer-alive-although-the-camera-is-reported-stopped", "live=%d", live);
+            }
         } break;
         case OP_CLOSE: {
             enum DeviceStatusCode e = simcam_close_camera(H.cam);
